@@ -1086,3 +1086,50 @@ def nested_accepted_runs(c0: int, c1: int, c2: int, c3: int, c4: int, c5: int, c
         return "validator rejects the nested machine: %r" % (problems,)
     r = _scn.nested_par({"C18", "C02"}, False, c0, c1, c2, c3, c4, c5, c6, c7, c8, c9)
     return r
+
+
+# states NAMED like the fields of the language: a checker that treats a member by its name (skipping "Result",
+# recursing into "States", ...) must still treat it as a state when it is a member of a States object
+KEYWORD_NAMES = ["Result", "Parameters", "ItemSelector", "ResultSelector", "Next", "Default", "States", "Branches", "Catch", "Retry",
+                 "Choices", "Iterator", "ItemProcessor", "Type", "End", "StartAt", "Comment", "InputPath", "Variable", "And"]
+DEFECTS = ["none", "dangling Next", "dangling Default", "dangling Choice Next", "dangling Catch Next", "branch StartAt dangling",
+           "branch re-uses a top-level state name", "branch Next dangling", "iterator re-uses the state's own name"]
+
+
+def build_keyword_named(ni, di, inner):
+    nm = pick(KEYWORD_NAMES, ni)
+    d = pick(DEFECTS, di)
+    if d == "none":
+        st = put_next(body("Pass"), "B")
+    elif d == "dangling Next":
+        st = put_next(body("Pass"), "X")
+    elif d == "dangling Default":
+        st = body("Choice", rule_next="B", default="X")
+    elif d == "dangling Choice Next":
+        st = body("Choice", rule_next="X", default="B")
+    elif d == "dangling Catch Next":
+        st = put_next(body("Task"), "B"); st["Catch"] = [{"ErrorEquals": ["States.ALL"], "Next": "X"}]
+    elif d == "branch StartAt dangling":
+        st = put_next(body("Parallel", br=branch(start="X")), "B")
+    elif d == "branch re-uses a top-level state name":
+        st = put_next(body("Parallel", br=branch(i_name="B", start="B", i_next="J")), "B")
+    elif d == "branch Next dangling":
+        st = put_next(body("Map", br=branch(i_next="X")), "B")
+    else:
+        st = put_next(body("Map", br=branch(i_name=nm, start=nm, i_next="J")), "B")
+    # every other state is reachable from a state with an ordinary name (a Choice leads to the keyword-named state
+    # and to B), so that only the keyword-named state's own transitions decide the verdict
+    level = {"StartAt": "A0", "States": {"A0": body("Choice", rule_next=nm, default="B"), nm: st, "B": {"Type": "Succeed"}}}
+    if inner:
+        # the keyword-named state sits one level down, inside a Parallel branch
+        return {"StartAt": "A", "States": {"A": put_next(body("Parallel", br=level), "Z"), "Z": {"Type": "Succeed"}}}
+    return level
+
+
+@condition(timeout={"quick": 180, "thorough": 300}, functions=_B_FUNCS, outside=_B_OUT)
+def agree_keyword_named_states(ni: int, di: int, inner: bool) -> bool:
+    """
+    requires: 0 <= ni < len(KEYWORD_NAMES) and 0 <= di < len(DEFECTS)
+    ensures: _
+    """
+    return agrees(verdict(build_keyword_named(ni, di, True if inner else False)))
